@@ -353,7 +353,7 @@ def _operators_on_path(gf, ev):
             names = {n.id for n in ast.walk(node) if isinstance(n, ast.Name)}
             if 'op_type' not in names or 'self' in names or any(isinstance(n, (ast.Yield, ast.YieldFrom, ast.NamedExpr)) for n in ast.walk(node)):
                 continue
-            if not names - {'op_type'} <= set(ns):
+            if not names - {'op_type'} <= set(ns) | set(dir(__import__('builtins'))):
                 continue
             try:
                 v = bool(it.eval(node, Env(ns, {'op_type': cls})))
